@@ -25,7 +25,7 @@ RULE = (
 )
 ASSUMPTIONS = ["float comparison: relative 1e-9 (std: absolute 1e-9 x largest magnitude)", "subject names unique, group names without '-' (C18 covers names)"]
 MINIMUM = {"C20.summaries_judged": 3000, "C20.subject_lookups_judged": 1000, "C20.across_groups_judged": 100, "C20.permutations_judged": 200}
-BUDGET_S = {"quick": 600, "thorough": 900}
+BUDGET_S = {"quick": 1200, "thorough": 900}
 
 
 def cases(tier, seed):
